@@ -124,6 +124,12 @@ def op_text(op, rng=None, style=0):
             if op[0][i][j]:
                 terms.append(('-' if op[0][i][j] < 0 else '+') + 'XYZ'[j])
         t = op[1][i]
+        if style in (3, 4):
+            # other legal spellings of the same operator: terms in the order z, y, x (so that a negative term can stand in front of a positive
+            # one: '-Y+X'), translations as the negative representative modulo 1 ('-1/2+Y', 'Y-1/2')
+            terms = terms[::-1]
+            if t and t >= F(1, 2):
+                t = t - 1
         num = ''
         if t:
             a = abs(t)
@@ -131,7 +137,7 @@ def op_text(op, rng=None, style=0):
                 num = ('-' if t < 0 else '+') + str(float(a))
             else:
                 num = ('-' if t < 0 else '+') + '%d/%d' % (a.numerator, a.denominator)
-        body = (num + ''.join(terms)) if style != 1 else (''.join(terms) + num)
+        body = (num + ''.join(terms)) if style not in (1, 4) else (''.join(terms) + num)
         if body.startswith('+'):
             body = body[1:]
         comps.append(body or '0')
